@@ -7,13 +7,14 @@
      - arrives_listen and the SynSent -> SynReceived move copy the ack FIELD of
        an ACK-less SYN (the header builder's raw 0) into SND.WL2.
    [gsh] therefore takes these four fields of the shifted TCB from a ghost;
-   [rcv_valid] says that RCV.IRS / RCV.NXT are properly shifted as soon as the
-   state is not SynSent.  SND.WL1 / SND.WL2 only gate the update of SND.WND in
-   ack_est; the stack advertises the constant window DEFAULT_WND in every SYN-
-   or ACK-bearing segment ([hok]), so the gated update never changes SND.WND and
-   the two runs may disagree on WL1/WL2 without any observable consequence
-   (lemma ack_est_rel; the strict version for valid WL1/WL2, which needs no
-   assumption on windows, is ack_est_wl_valid). *)
+   [rcv_valid] says that RCV.IRS / RCV.NXT / SND.WL1 are properly shifted as
+   soon as the state is not SynSent.  Only SND.WL2 stays unconstrained.  It only
+   gates the update of SND.WND in ack_est, and is decisive only for a segment
+   with seq = SND.WL1; the stack advertises the constant window DEFAULT_WND in
+   every SYN- or ACK-bearing segment ([hok]), so when the two runs decide the
+   gate differently the update changes neither SND.WND nor SND.WL1 (it writes
+   seq = SND.WL1 back) - only SND.WL2 (lemma ack_est_rel; the strict version
+   for a valid WL2, which needs no assumption on windows, is ack_est_wl_valid). *)
 From Elvis Require Import Model.Base Model.U32 Model.Tcb Proofs.U32Facts Proofs.TcbShift Proofs.TcbShiftInv.
 From Coq Require Import ZifyBool.
 Local Open Scope Z_scope.
@@ -61,16 +62,12 @@ Lemma trel_intro_eq g t t' : t' = G g t -> RV g t -> TR t t'.
 Proof. intros -> H. apply trel_intro. exact H. Qed.
 
 Lemma RV_eq g g' t t1 :
-  st t1 = st t -> rcv_irs t1 = rcv_irs t -> rcv_nxt t1 = rcv_nxt t ->
-  g_irs g' = g_irs g -> g_nxt g' = g_nxt g -> RV g t -> RV g' t1.
-Proof. unfold rcv_valid. intros -> -> -> -> ->. auto. Qed.
+  st t1 = st t -> rcv_irs t1 = rcv_irs t -> rcv_nxt t1 = rcv_nxt t -> snd_wl1 t1 = snd_wl1 t ->
+  g_irs g' = g_irs g -> g_nxt g' = g_nxt g -> g_wl1 g' = g_wl1 g -> RV g t -> RV g' t1.
+Proof. unfold rcv_valid. intros -> -> -> -> -> -> ->. auto. Qed.
 
 Lemma RV_enqueue g t h : RV g t -> RV g (enqueue t h).
-Proof. apply RV_eq; auto using enqueue_st, enqueue_rcv_irs, enqueue_rcv_nxt. Qed.
-
-Lemma RV_nonsyn g t : RV g t -> is_synsent (st t) = false ->
-  g_irs g = wadd (rcv_irs t) dP /\ g_nxt g = wadd (rcv_nxt t) dP.
-Proof. auto. Qed.
+Proof. apply RV_eq; auto using enqueue_st, enqueue_rcv_irs, enqueue_rcv_nxt, enqueue_snd_wl1. Qed.
 
 (* ---- sequence acceptability ---- *)
 Lemma is_in_rcv_window_G g t n : g_nxt g = wadd (rcv_nxt t) dP -> u32 n ->
@@ -119,11 +116,12 @@ Lemma G_wl_irrel g t w a b : snd_wnd t = w -> G g (set_snd_window t w a b) = G g
 Proof. intros <-. reflexivity. Qed.
 
 (* ---- ack_established_processing ---- *)
-Lemma ack_est_rel t t' h : TR t t' -> u32 (snd_una t) -> u32 (snd_nxt t) -> u32 (h_ack h) ->
+Lemma ack_est_rel t t' h : TR t t' -> u32 (snd_una t) -> u32 (snd_nxt t) -> u32 (snd_wl1 t) ->
+  u32 (h_ack h) -> u32 (h_seq h) ->
   c_ack (h_ctl h) = true -> is_synsent (st t) = false -> h_wnd h = snd_wnd t ->
   TR (fst (ack_est t h)) (fst (ack_est t' (HI h))) /\ snd (ack_est t' (HI h)) = snd (ack_est t h).
 Proof.
-  intros (g & -> & Hv) Hu Hn Ha Hack Hst Hw.
+  intros (g & -> & Hv) Hu Hn Hl1 Ha Hq Hack Hst Hw.
   destruct (Hv Hst) as [Ei En].
   unfold ack_est. tcb_cbn. rewrite Hack.
   rewrite mod_leq_shift by assumption.
@@ -138,15 +136,30 @@ Proof.
   set (t1 := remove_acked (set_snd_una t (h_ack h)) (h_ack h)).
   assert (Hv1 : RV g t1) by (revert Hv; apply RV_eq; reflexivity).
   assert (Hw1 : snd_wnd t1 = h_wnd h) by (rewrite Hw; reflexivity).
+  assert (Hst1 : is_synsent (st t1) = false) by exact Hst.
+  assert (Hl1' : u32 (snd_wl1 t1)) by exact Hl1.
   clearbody t1.
-  destruct (mod_lt (snd_wl1 (G g t1)) _ || _); destruct (mod_lt (snd_wl1 t1) _ || _); cbn [fst snd];
+  destruct (Hv1 Hst1) as [[Ei1 Ew1] En1].
+  change (snd_wl1 (G g t1)) with (g_wl1 g). change (snd_wl2 (G g t1)) with (g_wl2 g).
+  rewrite Ew1. rewrite mod_lt_shift, eqb_shift by assumption.
+  assert (Hboth : TR (set_snd_window t1 (h_wnd h) (h_seq h) (h_ack h))
+                     (set_snd_window (G g t1) (h_wnd h) (wadd (h_seq h) dP) (wadd (h_ack h) dO))).
+  { rewrite (G_set_snd_window dO dP g t1 _ _ _ (h_seq h) (h_ack h)).
+    apply trel_intro. intros _. split; [split|]; [exact Ei1 | reflexivity | exact En1]. }
+  destruct (mod_lt (snd_wl1 t1) (h_seq h)); cbn [orb fst snd].
+  { split; [exact Hboth | reflexivity]. }
+  destruct (snd_wl1 t1 =? h_seq h) eqn:Eeq; cbn [andb fst snd].
+  2:{ split; [apply trel_intro; exact Hv1 | reflexivity]. }
+  apply Z.eqb_eq in Eeq.
+  destruct (mod_leq (g_wl2 g) _); destruct (mod_leq (snd_wl2 t1) _); cbn [fst snd];
     (split; [|reflexivity]).
-  - rewrite (G_set_snd_window dO dP g t1 _ _ _ (h_seq h) (h_ack h)).
-    apply trel_intro. revert Hv1. apply RV_eq; reflexivity.
-  - rewrite G_set_snd_window_same by exact Hw1.
-    apply trel_intro. revert Hv1. apply RV_eq; reflexivity.
-  - rewrite <- (G_wl_irrel g t1 (h_wnd h) (h_seq h) (h_ack h)) by exact Hw1.
-    apply trel_intro. revert Hv1. apply RV_eq; reflexivity.
+  - exact Hboth.
+  - (* only the shifted run takes the update: it rewrites WL1 with itself *)
+    rewrite G_set_snd_window_same by exact Hw1.
+    apply trel_intro. intros _. split; [split|]; [exact Ei1 | cbn; rewrite Eeq; reflexivity | exact En1].
+  - (* only the original run takes the update *)
+    rewrite <- (G_wl_irrel g t1 (h_wnd h) (h_seq h) (h_ack h)) by exact Hw1.
+    apply trel_intro. intros _. split; [split|]; [exact Ei1 | cbn; rewrite Ew1, Eeq; reflexivity | exact En1].
   - apply trel_intro. exact Hv1.
 Qed.
 
@@ -195,7 +208,7 @@ Proof.
      TR (fst (ack_est t h)) (fst (ack_est t' (HI h))) /\ snd (ack_est t' (HI h)) = snd (ack_est t h) /\
      tinv (fst (ack_est t h)) /\ st (fst (ack_est t h)) = st t).
   { intros Hst. rewrite Hst in Hsw.
-    destruct (ack_est_rel t t' h HR Hu Hn Ha Hack Hst ltac:(congruence)) as [A B].
+    destruct (ack_est_rel t t' h HR Hu Hn (i_wl1 _ Hi) Ha Hq Hack Hst ltac:(congruence)) as [A B].
     split; [exact A | split; [exact B | split; [|apply ack_est_st]]].
     apply tinv_ack_est; auto. split; [|split]; assumption. }
   destruct HR as (g & -> & Hv). tcb_cbn.
@@ -223,8 +236,10 @@ Proof.
     rewrite (G_set_snd_window dO dP g (set_st t Established) _ _ _ (h_seq h) (h_ack h)).
     fold t1.
     assert (HR1 : TR t1 (G (set_gwl g (wadd (h_seq h) dP) (wadd (h_ack h) dO)) t1)).
-    { apply trel_intro. intros _. apply Hv. rewrite Hst. reflexivity. }
-    destruct (ack_est_rel t1 _ h HR1 Hu Hn Ha Hack eq_refl eq_refl) as [A B].
+    { apply trel_intro. intros _.
+      destruct (Hv ltac:(rewrite Hst; reflexivity)) as [[Ei Ew] En].
+      split; [split|]; [exact Ei | reflexivity | exact En]. }
+    destruct (ack_est_rel t1 _ h HR1 Hu Hn Hq Ha Hq Hack eq_refl eq_refl) as [A B].
     destruct (ack_est t1 h) as [t2 r]. destruct (ack_est (G _ t1) (HI h)) as [t2' r'].
     cbn [fst snd] in A, B. subst r'. destruct r; cbn [fst snd]; auto.
   - destruct (Hest eq_refl) as (A & B & _ & _).
@@ -269,7 +284,7 @@ Proof.
     change (hb_wnd (hb_ack (hb (G g t) (wadd (snd_nxt t) dO)) (wadd (wadd (h_seq h) 1) dP)) (rcv_wnd t))
       with (HO (hb_wnd (hb_ack (hb t (snd_nxt t)) (wadd (h_seq h) 1)) (rcv_wnd t))).
     rewrite enqueue_G. apply (trel_intro_eq g); [reflexivity|].
-    revert Hv. apply RV_eq; tcb_cbn; auto using enqueue_st, enqueue_rcv_irs, enqueue_rcv_nxt.
+    revert Hv. apply RV_eq; tcb_cbn; auto using enqueue_st, enqueue_rcv_irs, enqueue_rcv_nxt, enqueue_snd_wl1.
 Qed.
 
 (* ---- stage 3 ---- *)
@@ -306,11 +321,11 @@ Proof.
   destruct (mod_gt (snd_una t) (snd_iss t)); cbn [fst snd].
   - change (set_st (G g1 t1) Established) with (G g1 (set_st t1 Established)).
     rewrite ack_hdr_G by reflexivity. rewrite enqueue_G. split; [|reflexivity].
-    apply trel_intro. apply RV_enqueue. intros _. split; reflexivity.
+    apply trel_intro. apply RV_enqueue. intros _. split; [split|]; reflexivity.
   - change (set_st (G g1 t1) SynReceived) with (G g1 (set_st t1 SynReceived)).
     split; [|reflexivity].
     match goal with |- TR (enqueue ?a ?hh) (enqueue (G ?gg ?a) ?hh') => change hh' with (HO hh) end.
-    rewrite enqueue_G. apply trel_intro. apply RV_enqueue. intros _. split; reflexivity.
+    rewrite enqueue_G. apply trel_intro. apply RV_enqueue. intros _. split; [split|]; reflexivity.
 Qed.
 
 (* ---- stage 6 ---- *)
@@ -555,7 +570,7 @@ Proof.
   match goal with |- TR (set_in_segs _ (heap_push _ ?x)) (set_in_segs _ (heap_push _ ?x')) => change x' with (SI x) end.
   rewrite heap_push_sh; [| rewrite Ein; constructor | exact Hq].
   rewrite G_set_in_segs. apply trel_intro.
-  intros _. subst t1. unfold enqueue. destruct (_ || _); split; reflexivity.
+  intros _. subst t1. unfold enqueue. destruct (_ || _); (split; [split|]); reflexivity.
 Qed.
 
 (* ---- user calls ---- *)
@@ -593,7 +608,7 @@ Proof.
   match goal with |- context [snd_nxt (G g ?x)] => change (snd_nxt (G g x)) with (wadd (snd_nxt x) dO) end.
   rewrite (wadd_swap _ dO 1).
   rewrite G_set_snd_nxt. apply (trel_intro_eq g); [reflexivity|].
-  apply (RV_eq g g t1); auto using enqueue_st, enqueue_rcv_irs, enqueue_rcv_nxt.
+  apply (RV_eq g g t1); auto using enqueue_st, enqueue_rcv_irs, enqueue_rcv_nxt, enqueue_snd_wl1.
 Qed.
 
 Lemma tcb_close_rel t t' : TR t t' -> tinv t ->
